@@ -16,6 +16,7 @@ import RubatoProofs.Async.FixedIn
 import RubatoProofs.Async.FixedOut
 import RubatoProofs.Props.C12
 import RubatoProofs.Lemmas.FormulaTie
+import RubatoProofs.Async.OddLength
 
 set_option linter.unusedSectionVars false
 set_option linter.unusedVariables false
@@ -110,5 +111,19 @@ theorems of this file are about `stepsIn` / `stepsOut` driven by exactly these v
 theorem loop_control_is_the_source_text {ρ σ : Type} [RNum ρ] [SNum ρ σ] (s : AState ρ σ) (mask : List Bool) (fuel : Nat) :
     s.finishIn mask fuel = FormulaTie.finishInG s mask fuel ∧ s.finishOut mask = FormulaTie.finishOutG s mask :=
   ⟨rfl, rfl⟩
+
+end Rubato.C06
+
+namespace Rubato.C06
+open Rubato
+
+/-- finding D19 on the model (kernel-evaluated witness): `SincFixedOut` built around a user interpolator of ODD length 9
+(ratio 1/4, chunk 16, Quadratic, 16 sub-filters): the first call is given exactly the 68 frames it asks for and reads buffer
+index `2·9 + 68 + 1`, one frame beyond what was supplied (`stale = true`); with length 8 the same call stays inside -/
+theorem sincOut_odd_length_reads_unsupplied_frame_false :
+    OddLength.okSummary (OddLength.outcomeOf 0 OddLength.d19S0) = some (68, 16, true) ∧
+    readEnd OddLength.d19S0 60 = 2 * 9 + 68 + 1 ∧
+    OddLength.okSummary (OddLength.outcomeOf 0 OddLength.d19C0) = some (68, 16, false) :=
+  ⟨OddLength.d19_first_call_stale, OddLength.d19_last_position.2.2, OddLength.d19_control_not_stale.1⟩
 
 end Rubato.C06
